@@ -987,12 +987,17 @@ type membershipAllower struct {
 	oldMember MemberContent
 	// The new membership of the user if this event is accepted.
 	newMember MemberContent
+	// The join rule in effect for this event. It starts as the room's join rule and
+	// may be narrowed by the restricted-join checks; it is private to this event so
+	// that a shared allowerContext is never modified.
+	effectiveJoinRule string
 }
 
 // newMembershipAllower loads the information needed to authenticate the m.room.member event
 // from the auth events.
 func (a *allowerContext) newMembershipAllower(authEvents AuthEventProvider, event PDU) (m membershipAllower, err error) { // nolint: gocyclo
 	m.allowerContext = a
+	m.effectiveJoinRule = a.joinRule.JoinRule
 	m.roomVersionImpl, err = GetRoomVersion(event.Version())
 	if err != nil {
 		return
@@ -1106,7 +1111,7 @@ func (m *membershipAllower) membershipAllowedSelfForRestrictedJoin() error {
 	// In the case that the user is already joined, invited or there is no
 	// authorised via server, we should treat the join rule as if it's invite.
 	if m.oldMember.Membership == spec.Join || m.oldMember.Membership == spec.Invite || m.newMember.AuthorisedVia == "" {
-		m.joinRule.JoinRule = spec.Invite
+		m.effectiveJoinRule = spec.Invite
 		return nil
 	}
 
@@ -1148,7 +1153,7 @@ func (m *membershipAllower) membershipAllowedSelfForRestrictedJoin() error {
 
 	// At this point all of the checks have proceeded, so continue as if
 	// the room is a public room.
-	m.joinRule.JoinRule = spec.Public
+	m.effectiveJoinRule = spec.Public
 	return nil
 }
 
@@ -1209,17 +1214,17 @@ func (m *membershipAllower) membershipAllowedSelf() error { // nolint: gocyclo
 		return m.roomVersionImpl.CheckKnockingAllowed(
 			string(m.roomVersionImpl.Version()),
 			m.senderID, m.targetID,
-			m.joinRule.JoinRule,
+			m.effectiveJoinRule,
 			m.oldMember.Membership,
 		)
 	case spec.Join:
-		if m.joinRule.JoinRule == spec.Restricted || m.joinRule.JoinRule == spec.KnockRestricted {
+		if m.effectiveJoinRule == spec.Restricted || m.effectiveJoinRule == spec.KnockRestricted {
 			if err := m.membershipAllowedSelfForRestrictedJoin(); err != nil {
 				return err
 			}
 			// If, after validating restricted joins, the room is now "public", allow.
 			// This means that transitions from knock|invite|leave to join are allowed.
-			if m.joinRule.JoinRule == spec.Public {
+			if m.effectiveJoinRule == spec.Public {
 				return nil
 			}
 		}
@@ -1234,12 +1239,12 @@ func (m *membershipAllower) membershipAllowedSelf() error { // nolint: gocyclo
 
 		// A user that is not in the room is allowed to join if the room
 		// join rules are "public".
-		if m.oldMember.Membership == spec.Leave && m.joinRule.JoinRule == spec.Public {
+		if m.oldMember.Membership == spec.Leave && m.effectiveJoinRule == spec.Public {
 			return nil
 		}
 
 		return m.membershipFailed(
-			"join rule %q forbids it", m.joinRule.JoinRule,
+			"join rule %q forbids it", m.effectiveJoinRule,
 		)
 
 	case spec.Leave:
